@@ -167,10 +167,7 @@ theorem GoodOp3.update {H : Home} {tw : Ticket → Bool} {d : Doc} {N : Int} {r 
     have : val.id ≠ ts := fun h => by have : val.id.lamport ≤ N := hi; rw [h] at this; omega
     exact ⟨f, { g with hkey := by simp only [Home.update, this, if_false]; exact g.hkey,
                        hpar := by simp only [Home.update, this, if_false]; exact g.hpar }⟩
-  | increase c delta t0 =>
-    obtain ⟨l, v, q, fq, h1, h2, h3, h4, h5⟩ := g
-    have : c ≠ ts := fun h => by have : c.lamport ≤ N := hi; rw [h] at this; omega
-    exact ⟨l, v, q, fq, h1, h2, h3, by simp only [Home.update, this, if_false]; exact h4, h5⟩
+  | increase c delta t0 => exact g
   | move => exact g.elim
   | arraySet => exact g.elim
 
